@@ -72,6 +72,9 @@ pub enum Op {
     GetFinalizersFor { m: u8, root: u8 },
     /// memory_manager::get_all_finalizers: pops every outstanding registration
     GetAllFinalizers,
+    /// request a GC and, from inside that GC's stop_all_mutators, call prepare_to_fork(); afterwards wait for
+    /// every worker thread to exit, then after_fork()
+    ForkDuringGc { m: u8 },
     /// SATB pattern: move the referent of the first non-null field of obj(src) into a field of obj(dst),
     /// null the original field (both through the barrier) and drop every root naming the referent
     Hide { m: u8, src: u8, dst: u8 },
